@@ -42,6 +42,13 @@ fn cfg_b(variant: OsVariant, t: u16, p: u16, i1: usize, i2: usize) -> MCfg {
         rapid_event_delay: Some(p),
     }
 }
+/// Family B with different timeouts on the two one-shot keys (stacking must restart the
+/// timeout with the value of the most recently pressed one).
+fn cfg_b_mixed(variant: OsVariant, t1: u16, t2: u16, p: u16) -> MCfg {
+    let mut c = cfg_b(variant, t1, p, 0, 3);
+    c.layers[0][1] = os(variant, t2, inner(3));
+    c
+}
 /// Family A: one one-shot key and two plain keys.
 fn cfg_a(variant: OsVariant, t: u16, p: u16, i1: usize) -> MCfg {
     MCfg {
@@ -67,6 +74,7 @@ fn exh_cfgs(tier: Tier) -> Vec<(MCfg, u32)> {
                     v.push((cfg_a(variant, t, p, 2), 4));
                     v.push((cfg_a(variant, t, p, 1), 4));
                 }
+                v.push((cfg_b_mixed(variant, 30, 5, 0), 4));
             }
         }
         Tier::Thorough => {
@@ -80,6 +88,8 @@ fn exh_cfgs(tier: Tier) -> Vec<(MCfg, u32)> {
                         }
                     }
                 }
+                v.push((cfg_b_mixed(variant, 30, 5, 0), 4));
+                v.push((cfg_b_mixed(variant, 5, 30, 5), 4));
             }
         }
     }
@@ -92,6 +102,13 @@ fn t_of(c: &MCfg) -> u16 {
         .flatten()
         .find_map(|a| if let Act::OneShot(o) = a { Some(o.timeout) } else { None })
         .unwrap_or(0)
+}
+
+fn ts_of(c: &MCfg) -> Vec<u16> {
+    let mut v: Vec<u16> = c.layers.iter().flatten().filter_map(|a| if let Act::OneShot(o) = a { Some(o.timeout) } else { None }).collect();
+    v.sort();
+    v.dedup();
+    v
 }
 
 struct Table {
@@ -148,7 +165,7 @@ impl TypedProp for C06 {
             n_cases: t.ends.last().copied().unwrap_or(0) + random,
             exhaustive: false,
             distinct_by_construction: false,
-            required_classes: vec!["exhaustive", "random", "other-key-while-active", "boundary-gap", "stacked>16", "variant:Press", "variant:Release", "variant:PressPcancel", "variant:ReleasePcancel"],
+            required_classes: vec!["exhaustive", "random", "mixed-timeouts", "other-key-while-active", "boundary-gap", "stacked>16", "variant:Press", "variant:Release", "variant:PressPcancel", "variant:ReleasePcancel"],
             hang_secs: 60,
         }
     }
@@ -159,7 +176,14 @@ impl TypedProp for C06 {
                 let start = if ci == 0 { 0 } else { t.ends[ci - 1] };
                 let (cfg, n) = &t.cfgs[ci];
                 let tt = t_of(cfg) as u32;
-                let gaps = [0, 1, tt - 1, tt, tt + 1];
+                let ts = ts_of(cfg);
+                let gaps = if ts.len() > 1 {
+                    // two different timeouts: below / between / at the boundaries of both
+                    let (lo, hi) = (*ts.iter().min().unwrap() as u32, *ts.iter().max().unwrap() as u32);
+                    [0, 1, lo + 1, (lo + hi) / 2, hi]
+                } else {
+                    [0, 1, tt - 1, tt, tt + 1]
+                };
                 Gen::Fixed(MCase {
                     hist: schedule(idx - start, &cfg.src, &gaps, *n, 1),
                     cfg: cfg.clone(),
@@ -171,14 +195,18 @@ impl TypedProp for C06 {
     fn strategy(&self, _tier: Tier, _key: u32) -> BoxedStrategy<MCase> {
         (0usize..4, prop::sample::select(vec![5u16, 30]), prop::sample::select(vec![0u16, 5, 2]), 0usize..4, 0usize..4, 0usize..4, any::<bool>())
             .prop_flat_map(|(v, t, p, i1, i2, i3, burst)| {
+                // the three one-shot keys get different timeouts in half of the cases
+                let t2 = if i1 % 2 == 0 { t } else { 35 - t };
+                let t3 = if i2 % 2 == 0 { t } else { 12 };
                 // kanata supports at most 12 simultaneously active held layers
                 // (MAX_ACTIVE_LAYERS); the stacked-burst cases therefore stack keys, not layers.
                 let (i1, i2, i3) = if burst { ([0, 0, 2, 3][i1], [0, 3, 2, 3][i2], [0, 2, 2, 3][i3]) } else { (i1, i2, i3) };
                 let mut cfg = cfg_b(VARIANTS[v], t, p, i1, i2);
+                cfg.layers[0][1] = os(VARIANTS[v], t2, inner(i2));
                 cfg.src.push(kc("e"));
-                cfg.layers[0].push(os(VARIANTS[v], t, inner(i3)));
+                cfg.layers[0].push(os(VARIANTS[v], t3, inner(i3)));
                 cfg.layers[1].push(Act::Trans);
-                let gaps = vec![0, 1, 1, 1, 2, t as u32 - 1, t as u32, t as u32 + 1];
+                let gaps = vec![0, 1, 1, 1, 2, t as u32 - 1, t as u32, t as u32 + 1, t2 as u32, t3 as u32 + 1, 8, 20];
                 let body = consistent_history(cfg.src.clone(), gaps, 0..40);
                 // optional burst of 17..=20 one-shot taps, one per ms, before the body
                 let b = if burst { 17usize..=20 } else { 0usize..=0 };
@@ -200,7 +228,7 @@ impl TypedProp for C06 {
             .boxed()
     }
     fn judge(&self, case: &MCase) -> Verdict {
-        let t = t_of(&case.cfg) as u64;
+        let t = ts_of(&case.cfg).iter().copied().max().unwrap_or(0) as u64;
         let settle = 2 * t + 90 + 8 * case.hist.len() as u64;
         let run = match run_pair(case, settle, |_| {}) {
             Ok(r) => r,
@@ -229,6 +257,9 @@ impl TypedProp for C06 {
         v.classes.push(if n_os_keys <= 2 { "exhaustive" } else { "random" });
         if run.os_other_key {
             v.classes.push("other-key-while-active");
+        }
+        if ts_of(&case.cfg).len() > 1 {
+            v.classes.push("mixed-timeouts");
         }
         if boundary {
             v.classes.push("boundary-gap");
